@@ -14,6 +14,7 @@ RULE = (
     "step and just beyond its end); one run in three is paused at a generated step and continued with both "
     "initialize flags off before it is checked. "
     'One run in three uses simulate(unit_time=2 or 3): absence lists are then in time units, every level is still charged once per step. '
+    'One run in four is written to JSON, read into a new project and the whole accounting is checked again there. '
     "Non-trivial = at least two resources with different non-zero rates of which one is logged "
     "WORKING at a step where another one is idle or absent; distinct by canonical spec hash."
 )
@@ -46,6 +47,7 @@ def strategy(tier):
         # one step may cover several time units (simulate(unit_time=u)): absence lists are then in time units, the
         # logs still have one entry per step, and cost_per_time is charged once per step at every level
         spec["unit_time"] = draw(st.sampled_from([1, 1, 1, 2, 3]))
+        spec["via_json"] = draw(st.integers(0, 3)) == 0
         return spec
 
     return case()
@@ -83,6 +85,22 @@ def check(spec):
     res.cls("warm_" + str((spec.get("warm") or {}).get("mode")), bool(spec.get("warm")))
     check_costs(spec, h, res)
     nt = res.nontrivial
+    if spec.get("via_json") and not res.violations:
+        # the saved and re-loaded result carries the same accounting
+        p2, _ = S.json_roundtrip(p)
+        h2 = S.Handles()
+        h2.project = p2
+        teams = {t.ID: t for t in p2.organization.team_list}
+        wps = {w.ID: w for w in p2.organization.workplace_list}
+        workers = {w.ID: w for t in p2.organization.team_list for w in t.worker_list}
+        facs = {f.ID: f for w in p2.organization.workplace_list for f in w.facility_list}
+        h2.teams = [teams[S.tmid(i)] for i in range(len(spec["teams"]))]
+        h2.wps = [wps[S.wpid(i)] for i in range(len(spec["wps"]))]
+        h2.workers = [workers[S.wid(i)] for i in range(len(spec["workers"]))]
+        h2.facs = [facs[S.fid(i)] for i in range(len(spec["facs"]))]
+        res.cls("result_loaded_from_json")
+        check_costs(spec, h2, res, where=" on the project loaded from its JSON file")
+        res.nontrivial = nt
     for op in spec.get("edits", []):
         if res.violations:
             break
